@@ -271,6 +271,27 @@ def duplicate_refs(nodes):
     return {r: ix for r, ix in by.items() if len(ix) > 1}
 
 
+_CALL_ORIGIN = re.compile(r"_[A-Za-z][A-Za-z0-9]*(?:_[A-Za-z0-9]+)*_\d+_")
+
+
+def alias_class(nodes, name, ixs):
+    """WHY one reference name is carried by several distinct nodes — the cause, so that different defects of the
+    naming scheme get different signatures:
+      constant-named-by-value   all carriers are constants (make_ref names an unnamed constant by its value only)
+      context-vs-alt-context    carriers live in a context and in its alternative context (kind_<intkey> names repeat)
+      call-origin-name          the name carries a `_<function>_<count>_` origin given by Context.call: two expansions
+                                of an algorithm were given the same origin
+      derived-from-<kind>       anything else (named after its operands' names, themselves aliased)"""
+    ks = {nodes[i]["kind"] for i in ixs}
+    if ks == {"constant"}:
+        return "constant-named-by-value"
+    if len({bool(nodes[i].get("alt")) for i in ixs}) > 1:
+        return "context-vs-alt-context"
+    if _CALL_ORIGIN.search(name):
+        return "call-origin-name"
+    return "derived-from-" + "+".join(sorted(ks))
+
+
 def _elem_type(dump, ix):
     n = dump["nodes"][ix]
     return tuple(n["ty"])
@@ -361,7 +382,7 @@ def _check_stablehlo(text, dump):
             stats["alias_same_type"] += 1
             return
         if name in dup_refs:
-            raise Fail("tree_iso:ref-alias", f"${name} names {len(dup_refs[name])} distinct nodes "
+            raise Fail("tree_iso:ref-alias:" + alias_class(nodes, name, dup_refs[name]), f"${name} names {len(dup_refs[name])} distinct nodes "
                        f"({', '.join(describe(i) for i in dup_refs[name][:3])}); consequence: {ctxname} is attached to {describe(got)} "
                        f"but the graph's like is {describe(like_ix)}")
         raise Fail("tree_iso:constant-like-wrong-element-type",
@@ -449,7 +470,7 @@ def _check_stablehlo(text, dump):
                 return match(binds[name][0], ix)
             except Fail as f:
                 if name in dup_refs and not f.sig.startswith("tree_iso:ref-alias"):
-                    raise Fail("tree_iso:ref-alias", f"${name} names {len(dup_refs[name])} distinct nodes "
+                    raise Fail("tree_iso:ref-alias:" + alias_class(nodes, name, dup_refs[name]), f"${name} names {len(dup_refs[name])} distinct nodes "
                                f"({', '.join(describe(i) for i in dup_refs[name][:3])}); consequence: {f.sig}: {f.detail[:160]}")
                 raise
         if p.get("args") is None:
@@ -875,7 +896,7 @@ def _check_xla(text, dump):
             match(st["expr"], ix, n["alt"], top=True)
         except Fail as f:
             if name in dup_refs and not f.sig.startswith("tree_iso:ref-alias"):
-                raise Fail("tree_iso:ref-alias", f"`{name}` names {len(dup_refs[name])} distinct nodes "
+                raise Fail("tree_iso:ref-alias:" + alias_class(nodes, name, dup_refs[name]), f"`{name}` names {len(dup_refs[name])} distinct nodes "
                            f"({', '.join(describe(i) for i in dup_refs[name][:3])}); consequence: {f.sig}: {f.detail[:160]}")
             raise
 
@@ -967,7 +988,7 @@ def _check_xla(text, dump):
             stats["alias_same_type"] += 1
             return
         if lv[1] in dup_refs:
-            raise Fail("tree_iso:ref-alias", f"`{lv[1]}` names {len(dup_refs[lv[1]])} distinct nodes "
+            raise Fail("tree_iso:ref-alias:" + alias_class(nodes, lv[1], dup_refs[lv[1]]), f"`{lv[1]}` names {len(dup_refs[lv[1]])} distinct nodes "
                        f"({', '.join(describe(i) for i in dup_refs[lv[1]][:3])}); consequence: {what} is attached to {describe(got)} "
                        f"but the graph's like is {describe(like_ix)}")
         raise Fail("tree_iso:constant-like-wrong-element-type",
@@ -1117,7 +1138,7 @@ def _check_xla(text, dump):
                 last = f
         if not ok and last is not None and (last.sig, last.detail) not in fails:
             if st["var"] in dup_refs and not last.sig.startswith("tree_iso:ref-alias"):
-                last = Fail("tree_iso:ref-alias", f"`{st['var']}` names {len(dup_refs[st['var']])} distinct nodes "
+                last = Fail("tree_iso:ref-alias:" + alias_class(nodes, st["var"], dup_refs[st["var"]]), f"`{st['var']}` names {len(dup_refs[st['var']])} distinct nodes "
                             f"({', '.join(describe(i) for i in dup_refs[st['var']][:3])}); consequence: {last.sig}: {last.detail[:160]}")
             if (last.sig, last.detail) not in fails:
                 fails.append((last.sig, last.detail))
